@@ -5,6 +5,8 @@ from ..base import Exact, is_sym, zand, zimplies, znot, zor
 from ..events import C, G, L, P
 from ..oracles import Trace
 from ..runner import Job
+from ..scenlib import t_tree
+from ._common import matrix_jobs
 
 META = dict(
     explanation='Real EventBus/BaseEvent code executed on a virtual-time loop with the handler durations d1..d4 as z3 reals '
@@ -127,7 +129,7 @@ def t_timeout(ctx):
         ctx.check('C10.no_double_run', r.n == 1, h=r.h)
 
 
-TEMPLATES = {'s1.timeout': t_timeout}
+TEMPLATES = {'s1.timeout': t_timeout, 'tree': t_tree}
 
 
 def jobs(tier):
@@ -143,4 +145,5 @@ def jobs(tier):
                 out.append(Job('C10', 's1.timeout', t_timeout, dict(T=T, depth=2, child=child), witnesses=W))
         out.append(Job('C10', 's1.timeout', t_timeout, dict(T='1/4', depth=3, child='await'), witnesses=W, max_paths=6000))
         out.append(Job('C10', 's1.timeout', t_timeout, dict(T='1/4', depth=3, child='ff'), witnesses=W, max_paths=6000))
+    out += matrix_jobs('C10', 'm2', tier)
     return out
